@@ -6,6 +6,8 @@ From VF Require Import Base.Sx PyVal.Val PyVal.ValProofs PyVal.Codec Merge.Merge
   C13.Entry C13.EntryProofs.
 Import ListNotations.
 
+Definition step_data_of (o : obs) : option dict := match o with OChain _ (Ok (d, _)) _ _ => Some d | _ => None end.
+
 (* ---- merge_lookup_spec ----
    key order: a's keys, then the keys of b that a lacks; the value at each key is a's, b's
    or the combination of both. *)
@@ -140,8 +142,8 @@ Theorem C13_composite_is_stateless : forall ml ms ht steps,
                         end) steps).
 Proof.
   intros. cbn [run_model]. unfold hist_model. f_equal. apply map_ext. intros st. cbn zeta.
-  destruct (comp_get (table_H ht) ml ms 0 (map mk_source (st_srcs st)) (st_sys st) (st_pd st) (st_pv st)) as [g r].
-  destruct (comp_find 0 (map mk_source (st_srcs st)) (st_fk st) (st_fv st)) as [f fr]. reflexivity.
+  destruct (comp_get (table_H ht) ml ms 0 (map (mk_source ht) (st_srcs st)) (st_sys st) (st_pd st) (st_pv st)) as [g r].
+  destruct (comp_find 0 (map (mk_source ht) (st_srcs st)) (st_fk st) (st_fv st)) as [f fr]. reflexivity.
 Qed.
 Print Assumptions C13_composite_is_stateless.
 
@@ -170,6 +172,14 @@ Theorem C13_built_composite_is_complete : forall ml ms ht fails fexc tries steps
   run_model (CBuild ml ms ht fails fexc tries steps) = OBuild (construct fexc tries fails) (hist_model ml ms ht steps).
 Proof. intros. cbn [run_model]. now rewrite H. Qed.
 Print Assumptions C13_built_composite_is_complete.
+
+(* a composite used as a constituent of another composite keeps its own merge flags: towards the outer chain it is the
+   source whose get_data / find_system are the inner composite's (nothing is flattened) *)
+Theorem C13_nested_composite_keeps_its_flags : forall ht ml ms l sys pd pv k v,
+  get_data (mk_source ht (SComp ml ms l)) sys pd pv = snd (comp_get (table_H ht) ml ms 0 (map (mk_source ht) l) sys pd pv) /\
+  find_system (mk_source ht (SComp ml ms l)) k v = snd (comp_find 0 (map (mk_source ht) l) k v).
+Proof. intros. split; reflexivity. Qed.
+Print Assumptions C13_nested_composite_keeps_its_flags.
 
 (* with the same preceding version, different constituent versions give a different composite version,
    provided the hash has fixed-length output and does not collide on the strings hashed in the two runs *)
@@ -237,9 +247,17 @@ Proof.
 Qed.
 
 Example C13_nonvacuous_chain :
-  run_model (CChain false true [] [(Ok ([(sa, VInt 1)], [118%N]), Ok None); (Ok ([(sb, VInt 2)], [119%N]), Ok (Some [115%N]))]
+  run_model (CChain false true [] [SConst (Ok ([(sa, VInt 1)], [118%N])) (Ok None); SConst (Ok ([(sb, VInt 2)], [119%N])) (Ok (Some [115%N]))]
                     [115%N] [] [112%N] [107%N] VNone)
   = OChain [(0%nat, [115%N], [], [112%N]); (1%nat, [115%N], [(sa, VInt 1)], [63; 112; 124; 118]%N)]
            (Ok ([(sa, VInt 1); (sb, VInt 2)], [63; 63; 112; 124; 118; 124; 119]%N))
            [0; 1]%nat (Ok (Some [115%N])).
 Proof. vm_compute. reflexivity. Qed.
+
+Example C13_nested_flags_matter :
+  let a := SConst (Ok ([(sa, VList [VInt 1])], [118%N])) (Ok None) in
+  let b := SConst (Ok ([(sa, VList [VInt 2])], [119%N])) (Ok None) in
+  step_data_of (run_model (CChain false true [] [SComp true true [a; b]] [115%N] [] [112%N] [107%N] VNone)) = Some [(sa, VList [VInt 1; VInt 2])] /\
+  step_data_of (run_model (CChain false true [] [a; b] [115%N] [] [112%N] [107%N] VNone)) = Some [(sa, VList [VInt 2])].
+Proof. split; vm_compute; reflexivity. Qed.
+
